@@ -4,7 +4,7 @@ import json, os, re, shutil, sys
 pid = sys.argv[1]
 n = pid[1:]
 for v in (sys.argv[2] if len(sys.argv) > 2 else 'ab'):
-    src = f'/tmp/seed{"5" if v in "ij" else "4" if v in "gh" else "3" if v in "ef" else "2" if v in "cd" else ""}-c{n}/{v}'
+    src = f'/tmp/seed{"6" if v in "kl" else "5" if v in "ij" else "4" if v in "gh" else "3" if v in "ef" else "2" if v in "cd" else ""}-c{n}/{v}'
     if not os.path.exists(src + '/patch.diff'): continue
     dst = f'/verif/seeded/{pid}{v}'
     os.makedirs(dst, exist_ok=True)
